@@ -821,8 +821,10 @@ func (s *Sim) run() Outcome {
 				cands = append(cands, t)
 			}
 		}
-		if len(cands) == 0 {
-			// nothing else can run: release the tasks lined up at the hold point, once
+		if len(cands) == 0 || s.sinceAdvance >= forceAdvanceEvery {
+			// nothing else can run - or what runs has been going for a long stretch of steps without any
+			// harness-visible progress (a spin loop in the code under test that waits for a held task):
+			// release the tasks lined up at the hold point, once
 			for _, t := range s.tasks {
 				if t.held {
 					t.held = false
